@@ -425,12 +425,13 @@ class Ctx:
 
     def _guarded(self, fn, case):
         old = signal.signal(signal.SIGALRM, _alarm)
-        signal.alarm(self.CASE_TIMEOUT_S)
+        # thorough cases are larger (whole rows of a pair table, long parameter sweeps): more time per case
+        signal.alarm(self.CASE_TIMEOUT_S if self.tier == "quick" else 15 * self.CASE_TIMEOUT_S)
         try:
             fn(case, self)
         except CaseTimeout:
             self.violation(
-                "timeout", "persim call did not terminate within %ds" % self.CASE_TIMEOUT_S
+                "timeout", "persim call did not terminate within %ds" % (self.CASE_TIMEOUT_S if self.tier == "quick" else 15 * self.CASE_TIMEOUT_S)
             )
         except HarnessError:
             raise
